@@ -1734,6 +1734,55 @@ CLEANUP:
 	return qB;
 }
 
+/* a basis is valid if every status is a known one and exactly one variable
+ * per row is basic */
+static int check_basis_arrays (
+	int nstruct,
+	int nrows,
+	const char *cstat,
+	const char *rstat)
+{
+	int i, nbas = 0;
+
+	for (i = 0; i < nstruct; i++)
+	{
+		switch (cstat[i])
+		{
+		case QS_COL_BSTAT_BASIC:
+			nbas++;
+			break;
+		case QS_COL_BSTAT_LOWER:
+		case QS_COL_BSTAT_UPPER:
+		case QS_COL_BSTAT_FREE:
+			break;
+		default:
+			QSlog("unknown column basis status %d for column %d", cstat[i], i);
+			return 1;
+		}
+	}
+	for (i = 0; i < nrows; i++)
+	{
+		switch (rstat[i])
+		{
+		case QS_ROW_BSTAT_BASIC:
+			nbas++;
+			break;
+		case QS_ROW_BSTAT_LOWER:
+		case QS_ROW_BSTAT_UPPER:
+			break;
+		default:
+			QSlog("unknown row basis status %d for row %d", rstat[i], i);
+			return 1;
+		}
+	}
+	if (nbas != nrows)
+	{
+		QSlog("basis has %d basic variables for %d rows", nbas, nrows);
+		return 1;
+	}
+	return 0;
+}
+
 EGLPNUM_TYPENAME_QSLIB_INTERFACE int EGLPNUM_TYPENAME_QSload_basis (
 	EGLPNUM_TYPENAME_QSdata * p,
 	QSbasis * B)
@@ -1749,6 +1798,9 @@ EGLPNUM_TYPENAME_QSLIB_INTERFACE int EGLPNUM_TYPENAME_QSload_basis (
 		rval = 1;
 		goto CLEANUP;
 	}
+	/* reject an invalid basis before the current one is given up */
+	rval = check_basis_arrays (B->nstruct, B->nrows, B->cstat, B->rstat);
+	CHECKRVALG (rval, CLEANUP);
 
 	if (p->basis == 0)
 	{
@@ -1775,25 +1827,34 @@ EGLPNUM_TYPENAME_QSLIB_INTERFACE int EGLPNUM_TYPENAME_QSread_and_load_basis (
 	const char *filename)
 {
 	int rval = 0;
+	EGLPNUM_TYPENAME_ILLlp_basis *B = 0;
 
 	rval = check_qsdata_pointer (p);
 	CHECKRVALG (rval, CLEANUP);
 
-	if (p->basis == 0)
-	{
-		ILL_SAFE_MALLOC (p->basis, 1, EGLPNUM_TYPENAME_ILLlp_basis);
-		EGLPNUM_TYPENAME_ILLlp_basis_init (p->basis);
-	}
-	else
+	/* read into a fresh basis and install it only if reading succeeded */
+	ILL_SAFE_MALLOC (B, 1, EGLPNUM_TYPENAME_ILLlp_basis);
+	EGLPNUM_TYPENAME_ILLlp_basis_init (B);
+
+	rval = EGLPNUM_TYPENAME_ILLlib_readbasis (p->lp, B, filename);
+	CHECKRVALG (rval, CLEANUP);
+
+	if (p->basis)
 	{
 		EGLPNUM_TYPENAME_ILLlp_basis_free (p->basis);
+		ILL_IFFREE(p->basis);
 	}
-
-	rval = EGLPNUM_TYPENAME_ILLlib_readbasis (p->lp, p->basis, filename);
-	CHECKRVALG (rval, CLEANUP);
+	p->basis = B;
+	B = 0;
+	p->factorok = 0;
 
 CLEANUP:
 
+	if (B)
+	{
+		EGLPNUM_TYPENAME_ILLlp_basis_free (B);
+		ILL_IFFREE(B);
+	}
 	return rval;
 }
 
@@ -1825,6 +1886,8 @@ EGLPNUM_TYPENAME_QSLIB_INTERFACE int EGLPNUM_TYPENAME_QSload_basis_array (
 		rval = 1;
 		goto CLEANUP;
 	}
+	rval = check_basis_arrays (qslp->nstruct, qslp->nrows, cstat, rstat);
+	CHECKRVALG (rval, CLEANUP);
 
 	if (p->basis == 0)
 	{
